@@ -62,6 +62,62 @@ fn caps_of(o: &Operand) -> (Vec<String>, Vec<String>) {
     (o.required_capabilities().iter().map(|c| format!("{:?}", c)).collect(), o.required_extensions().iter().map(|s| s.to_string()).collect())
 }
 
+/// String payloads at the edges of the domain: empty, NULs (leading, interior, trailing), white space,
+/// multi-byte characters, long strings.
+fn hostile_string(rng: &mut Rng) -> String {
+    const FIXED: &[&str] = &["", "\0", "main\0", "\0main", "a\0b", "main\0\0", " main ", "main ", "\n", "main\n", "\tmain", "\u{e9}", "\u{65e5}\u{672c}\u{8a9e}", "\u{feff}x", "x\r\n", "\"quoted\"", "back\\slash", "\u{1f600}", "abc", "abcd", "GLSL.std.450"];
+    match rng.below(4) {
+        0 => rng.pick(crate::geninst::STRING_POOL).to_string(),
+        1 => rng.pick(FIXED).to_string(),
+        2 => {
+            const ALPHA: &[&str] = &["\0", " ", "\n", "\t", "a", "Z", "0", "\u{e9}", "\u{65e5}", "\u{1f600}", "\"", "\\", "%"];
+            let n = rng.below(12);
+            (0..n).map(|_| *rng.pick(ALPHA)).collect()
+        }
+        _ => {
+            let n = match rng.below(3) {
+                0 => rng.range(1, 9),
+                1 => rng.range(60, 70),
+                _ => rng.range(1000, 5000),
+            };
+            let mut s: String = (0..n).map(|i| (b'a' + (i % 26) as u8) as char).collect();
+            if rng.chance(1, 2) {
+                s.push('\0');
+            }
+            s
+        }
+    }
+}
+
+fn string_shape(s: &str) -> String {
+    let mut v = vec![];
+    if s.is_empty() {
+        v.push("empty");
+    }
+    if s.starts_with('\0') {
+        v.push("leading-nul");
+    }
+    if s.ends_with('\0') && !s.is_empty() {
+        v.push("trailing-nul");
+    }
+    if s.trim_matches('\0').contains('\0') {
+        v.push("interior-nul");
+    }
+    if s.trim() != s {
+        v.push("outer-whitespace");
+    }
+    if !s.is_ascii() {
+        v.push("multi-byte");
+    }
+    if s.len() >= 1000 {
+        v.push("long");
+    }
+    if v.is_empty() {
+        v.push("plain");
+    }
+    v.join("+")
+}
+
 pub fn run(cfg: &Cfg, rep: &mut Report) {
     rep.rule = "every enumerant of ExecutionMode and Decoration, every single bit and all subsets (<=16 declared bits; random above) of the parameterised masks: kinds the parser consumes after the value (observed through the unique accepted count of zero filler words and the delivered operands) vs additional_operands() vs the frozen parameter table and spec anchors; required capabilities/extensions of every enumerant and mask bit of every kind vs the frozen table; id_ref_any / id_ref_any_mut / From+unwrap round trips over all 64 operand variants. distinct_nontrivial = distinct (kind, value) pairs with a non-empty parameter list or capability list compared".into();
     rep.assumptions.push("the frozen reference (dumped from the pinned tree) equals the Khronos grammar of SDK 1.4.309.0; quantifiers of enumerant parameters cannot be compared with Khronos".into());
@@ -281,7 +337,7 @@ pub fn run(cfg: &Cfg, rep: &mut Report) {
                 let e = decls::ENUMS.iter().find(|e| e.name == "Op").unwrap();
                 Operand::LiteralSpecConstantOpInteger(decls::op_by_value(e.variants[rng.below(e.variants.len())].1).unwrap())
             }
-            "LiteralString" => Operand::LiteralString(rng.pick(crate::geninst::STRING_POOL).to_string()),
+            "LiteralString" => Operand::LiteralString(hostile_string(rng)),
             _ => {
                 let k = match kind {
                     Some(k) => k,
@@ -295,9 +351,28 @@ pub fn run(cfg: &Cfg, rep: &mut Report) {
                         let vals = d.enum_values(k);
                         vals[rng.below(vals.len())].1
                     }
-                    _ => payload & d.mask_all(k),
+                    // every u32 is a value of a bit-mask payload type: declared subsets, arbitrary words,
+                    // and a single undeclared bit on top of a declared subset
+                    _ => match rng.below(4) {
+                        0 | 1 => payload & d.mask_all(k),
+                        2 => payload,
+                        _ => {
+                            let free = !d.mask_all(k);
+                            let mut b = 1u32 << rng.below(32);
+                            for _ in 0..32 {
+                                if b & free != 0 {
+                                    break;
+                                }
+                                b = b.rotate_left(1);
+                            }
+                            (payload & d.mask_all(k)) | (b & free)
+                        }
+                    },
                 };
-                match decls::mk_enum_operand(k, v) {
+                if decls::kind_class(k) != 0 {
+                    r.count(if v & !d.mask_all(k) != 0 { "mask_payloads_with_undeclared_bits" } else { "mask_payloads_declared_bits_only" }, 1);
+                }
+                match if decls::kind_class(k) == 0 { decls::mk_enum_operand(k, v) } else { decls::mk_mask_operand_retain(k, v) } {
                     Some(o) => o,
                     None => return,
                 }
@@ -354,7 +429,8 @@ pub fn run(cfg: &Cfg, rep: &mut Report) {
                 }
             }
             Operand::LiteralString(s) => {
-                if Operand::from(s.clone()).unwrap_literal_string() != s || Operand::from(s.as_str()).unwrap_literal_string() != s {
+                r.seen("string_payload_shapes", string_shape(s));
+                if Operand::from(s.clone()).unwrap_literal_string() != s || Operand::from(s.as_str()).unwrap_literal_string() != s || Operand::from(s.as_str()) != Operand::LiteralString(s.clone()) || Operand::from(s.clone()) != Operand::LiteralString(s.clone()) {
                     r.violation("C17:from-unwrap:LiteralString".to_string(), format!("round trip of {:?}", s), rp());
                 }
             }
